@@ -669,6 +669,9 @@ where
             .corrupted_blobs
             .store(corrupted, Ordering::Release);
 
+        let next_after_corrupted = Self::max_old_corrupted_blob_id(&self.inner.config).await.map_or(0, |i| i + 1);
+        self.inner.next_blob_id.fetch_max(next_after_corrupted, Ordering::AcqRel);
+
         let next = self.inner.next_blob_name()?;
         let mut safe = self.inner.safe.write().await;
         let blob =
@@ -680,6 +683,7 @@ where
     async fn init_from_existing(&mut self, files: Vec<DirEntry>, with_active: bool) -> Result<()> {
         trace!("init from existing: {:#?}", files);
         let existed_corrupted_blob_count = Self::count_old_corrupted_blobs(&self.inner.config).await;
+        let existed_corrupted_max_id = Self::max_old_corrupted_blob_id(&self.inner.config).await;
         let disk_access_sem = self.inner.get_dump_sem();
         let ReadBlobsResult { mut blobs, max_blob_id, new_corrupted_blob_count} = Self::read_blobs(
             &files,
@@ -693,6 +697,8 @@ where
         self.inner
             .corrupted_blobs
             .store(existed_corrupted_blob_count + new_corrupted_blob_count, Ordering::Release);
+        // Ids of blobs moved to the corrupted dir earlier must not be assigned again
+        let max_blob_id = max_blob_id.max(existed_corrupted_max_id);
         self.inner
             .next_blob_id
             .store(max_blob_id.map_or(0, |i| i + 1), Ordering::Release);
@@ -837,6 +843,22 @@ where
         }
 
         corrupted
+    }
+
+    async fn max_old_corrupted_blob_id(config: &Config) -> Option<usize> {
+        let mut corrupted_dir_path = config.work_dir()?.to_path_buf();
+        corrupted_dir_path.push(config.corrupted_dir_name());
+        let mut dir = read_dir(&corrupted_dir_path).await.ok()?;
+        let mut max_id = None;
+        while let Ok(Some(file)) = dir.next_entry().await {
+            let path = file.path();
+            if let Some(BLOB_FILE_EXTENSION) = path.extension().and_then(|ext| ext.to_str()) {
+                if let Ok(file_name) = blob::FileName::from_path(&path) {
+                    max_id = max_id.max(Some(file_name.id()));
+                }
+            }
+        }
+        max_id
     }
 
     fn should_save_corrupted_blob(error: &anyhow::Error) -> bool {
